@@ -143,6 +143,15 @@ def cmd_confirm(src_dir, jobs):
     return results
 
 
+def apply_patch(wt, patch):
+    """git apply, falling back to reduced context / 3-way when the tree has moved on since the patch was written"""
+    for extra in ([], ["-C1"], ["--3way"]):
+        rc, out = sh(["git", "apply"] + extra + [patch], cwd=wt)
+        if rc == 0:
+            return 0, " ".join(extra)
+    return rc, out
+
+
 RELATED = {
     "C01": ["C03", "C15", "C11"], "C02": ["C15", "C11", "C05"], "C03": ["C01", "C10", "C09"], "C04": ["C12", "C08", "C05"],
     "C05": ["C12", "C02", "C14"], "C06": ["C07", "C01", "C16"], "C07": ["C06", "C01"], "C08": ["C04", "C15"],
@@ -160,7 +169,7 @@ def detect_one(name, tier, also):
     build = os.path.join(SCRATCH, "build-" + name)
     res = {"name": name, "property": pid, "checks": {}}
     try:
-        rc, out = sh(["git", "apply", os.path.join(d, "patch.diff")], cwd=wt)
+        rc, out = apply_patch(wt, os.path.join(d, "patch.diff"))
         if rc != 0:
             res["error"] = "patch does not apply: " + out[-300:]
             return res
@@ -221,7 +230,7 @@ def silent_one(diff, name, ids):
     build = os.path.join(SCRATCH, "build-silent-" + name)
     res = {"name": name, "alarms": {}, "errors": {}}
     try:
-        rc, out = sh(["git", "apply", diff], cwd=wt)
+        rc, out = apply_patch(wt, diff)
         if rc != 0:
             res["error"] = "patch does not apply: " + out[-300:]
             return res
